@@ -20,8 +20,11 @@ NickUnique(st) ==
   /\ \A k \in DOMAIN st.nk : /\ st.nk[k] \in Live(st)
                              /\ LcN(st.ss[st.nk[k]].nick) = k
   /\ \A x \in Live(st) : st.ss[x].nick # "" => (Has(st.nk, LcN(st.ss[x].nick)) /\ st.nk[LcN(st.ss[x].nick)] = x)
+(* the nickname of a pseudo-client (rid # 0) is what the authenticated services link said in its NICK line: *)
+(* the server stores it as it is, and a line with a name outside the grammar is not a protocol-conforming   *)
+(* one - such states stay in the scope of C01/C03 (replicas agree, snapshots round-trip), not of this one   *)
 NamesValid(st) ==
-  /\ \A x \in Live(st) : st.ss[x].nick # "" => ValidNick(st.ss[x].nick)
+  /\ \A x \in Live(st) : (st.ss[x].rid = 0 /\ st.ss[x].nick # "") => ValidNick(st.ss[x].nick)
   /\ \A c \in DOMAIN st.ch : ValidChan(st.ch[c].name) /\ LcC(st.ch[c].name) = c
 MembershipSymmetric(st) ==
   \A x \in Live(st) : \A c \in st.ss[x].chans \cup DOMAIN st.ch :
@@ -178,7 +181,16 @@ PrivFailures(S, T, e, out) ==
       \A c \in common :
         \A i \in {i \in 1..Len(T.ch[c].bans) : ~\E j \in 1..Len(S.ch[c].bans) : S.ch[c].bans[j] = T.ch[c].bans[i]} :
           LET b == T.ch[c].bans[i]  re == ReOfMask(b.m)  ra == ResolveAddr(T, re) IN
-          (b.r = re /\ ra # re) => \E k \in 1..Len(T.ch[c].bans) : T.ch[c].bans[k].m = b.m /\ T.ch[c].bans[k].r = ra)
+          (* (an "address" that does not compile as a regexp is refused with 472, nothing is announced) *)
+          (b.r = re /\ ra # re /\ AddrCompiles(ResolvedAddr(T, re))) => \E k \in 1..Len(T.ch[c].bans) : T.ch[c].bans[k].m = b.m /\ T.ch[c].bans[k].r = ra)
+    \cup F("SessionBanCoversAddress",
+      (* +b on a mask that names a session (robust/0x..) bans the ADDRESS that session has when the +b is     *)
+      (* processed, each time it is processed: what the resolved pattern plainly matches is banned afterwards *)
+      (e.cmd = "MODE" /\ Len(e.p) = 3 /\ e.p[2] = "+b" /\ LcC(e.p[1]) \in common /\ LcC(e.p[1]) \in s.chans
+       /\ (isop(LcC(e.p[1])) \/ oper)) =>
+        LET c == LcC(e.p[1])  re == ReOfMask(e.p[3])  ra == ResolveAddr(T, re)
+            witness == MapStr([ch \in {"*"} |-> "x"], MaskOfRe(ra)) IN
+        (ra # re /\ AddrCompiles(ResolvedAddr(T, re))) => StrBanHit(T, c, witness))
     \cup F("CaptchaProofOnlyFromCaptcha",
       (* the time of the last solved captcha (which opens +x channels for a minute) moves only when the entry *)
       (* itself carried a valid captcha: the grace period cannot renew itself                                  *)
